@@ -26,6 +26,7 @@ VERIF = os.path.dirname(os.path.dirname(os.path.abspath(__file__)))
 LEAN = os.path.join(VERIF, "lean")
 REPO = os.environ.get("SKA_REPO", "/repo")
 DRIVER = os.path.join(LEAN, ".lake", "build", "bin", "skadriver")
+GENDRIVER = os.path.join(LEAN, ".lake", "build", "bin", "skagendriver")
 ALLOWED_AXIOMS = {"propext", "Classical.choice", "Quot.sound"}
 FORBIDDEN = re.compile(
     r"\bsorry\b|\badmit\b|^axiom\s|native_decide|bv_decide|implemented_by|\bunsafe\s|maxHeartbeats\s+0\b",
@@ -183,12 +184,12 @@ def audit(prop_modules, extra_modules=()):
     return dict(obligations=len(thms), discharged=discharged, problems=problems, theorems=thms)
 
 
-def run_driver(lines, timeout=600):
+def run_driver(lines, timeout=600, exe=None):
     """Pipe the case lines to the compiled model driver; one output line per input line."""
     if not lines:
         return []
     data = "\n".join(lines) + "\n"
-    p = subprocess.run([DRIVER], input=data, stdout=subprocess.PIPE, stderr=subprocess.PIPE, text=True, timeout=timeout)
+    p = subprocess.run([exe or DRIVER], input=data, stdout=subprocess.PIPE, stderr=subprocess.PIPE, text=True, timeout=timeout)
     out = p.stdout.splitlines()
     if p.returncode != 0 or len(out) != len(lines):
         raise RuntimeError(f"driver failed rc={p.returncode} lines_in={len(lines)} lines_out={len(out)} err={p.stderr[-400:]}")
@@ -309,13 +310,28 @@ def run_check(prop, module, tier, seed):
             errs = [l for l in br.log.splitlines() if "error" in l][:8]
             ctx.broken.append("lake build failed: " + " | ".join(errs))
         else:
-            aud = audit(module.LEAN_TARGETS)
+            prop_mods = list(module.LEAN_TARGETS)
+            # targets that depend on files regenerated from the current source (translator tie): built separately, so
+            # that a generated file that stops compiling breaks this tie only and not the hand-written model's driver
+            gen_targets = list(getattr(module, "GEN_TARGETS", []))
+            ctx.gen_ok = False
+            if gen_targets and not getattr(ctx, "gen_failed", False):
+                br2 = lake_build(gen_targets)
+                build_log += br2.log
+                if br2.ok:
+                    ctx.gen_ok = True
+                    prop_mods += [t for t in gen_targets if t.startswith("SkaModel.")]
+                else:
+                    errs = [l for l in br2.log.splitlines() if "error" in l][:6]
+                    ctx.broken.append("the theorems about the model generated from the current source no longer check "
+                                      "(lake build " + " ".join(gen_targets) + "): " + " | ".join(errs))
+            aud = audit(prop_mods)
             for pr in aud["problems"]:
                 ctx.broken.append("audit: " + pr)
             if tier == "thorough":
                 # independent re-check of the compiled theorems by the toolchain's external checker
                 t1 = time.time()
-                mods = [t for t in module.LEAN_TARGETS if t.startswith("SkaModel.")]
+                mods = [t for t in prop_mods if t.startswith("SkaModel.")]
                 lc = subprocess.run(["lake", "env", "leanchecker"] + mods, cwd=LEAN, stdout=subprocess.PIPE,
                                     stderr=subprocess.STDOUT, text=True)
                 ctx.notes["leanchecker"] = dict(modules=mods, returncode=lc.returncode, seconds=round(time.time() - t1, 1))
@@ -413,7 +429,7 @@ def run_check(prop, module, tier, seed):
     cov = dict(
         obligations=max(aud["obligations"] + ctx.notes.get("generated_obligations", 0), 1),
         discharged=max(aud["discharged"] + ctx.notes.get("generated_discharged", 0), 0),
-        checker_cmd="cd lean && lake build " + " ".join(module.LEAN_TARGETS) + " && lake env lean <generated #print axioms file>",
+        checker_cmd="cd lean && lake build " + " ".join(list(module.LEAN_TARGETS) + list(getattr(module, "GEN_TARGETS", []))) + " && lake env lean <generated #print axioms file>",
         trusted_base=TRUSTED_BASE + list(getattr(module, "TRUSTED", [])),
         theorems=aud["theorems"],
         evaluations=ctx.evaluations,
